@@ -57,7 +57,7 @@ def gen_cases(ctx):
             vals = {"float": [1.5, 2.5, 2.5], "int": [1, 2, 2], "bool": [True, False, False], "date": [1, 2, 2]}[kind]
             warm.append({"op": "inproc", "helper": h, "kind": kind, "args": a, "vals": vals, "g": [0, 0, 1]})
     cases = warm + cases
-    # timedelta columns (fixed d3e1283: they took the Numba path, which cannot handle them: min/max lost the
+    # timedelta columns (fixed 9beca5c: they took the Numba path, which cannot handle them: min/max lost the
     # group's value next to a NaT, sum/mean/median raised): switching USE_NUMBA must not matter for them either
     td_pool = [None, -5, 0, 1, 2, 86400, 3 * 86400]
     for _ in range(40 if ctx.tier == "quick" else 800):
